@@ -43,6 +43,20 @@ def _has_quant(ob):
     return has_quant(ob.goal) or any(has_quant(a) for a in ob.assumptions)
 
 
+def _contains_quant(e):
+    seen, stack = set(), [e]
+    while stack:
+        x = stack.pop()
+        if x.get_id() in seen:
+            continue
+        seen.add(x.get_id())
+        if z3.is_quantifier(x):
+            return True
+        if z3.is_app(x):
+            stack.extend(x.children())
+    return False
+
+
 def model_refutes(ob, model):
     """Does the model really falsify the goal?  z3 may answer `sat` with a model that does not
     satisfy a quantified formula (incomplete seq / MBQI): evaluate the negated goal under the model,
@@ -50,6 +64,20 @@ def model_refutes(ob, model):
     from .instantiate import inst
 
     try:
+        # a model that breaks one of the (quantified) ASSUMPTIONS on a small instance range is no counter-example either
+        for asm in ob.assumptions:
+            if not z3.is_quantifier(asm) and not _contains_quant(asm):
+                continue
+            try:
+                av = z3.simplify(model.eval(asm, model_completion=True))
+                if z3.is_false(av):
+                    return False
+                if not z3.is_true(av):
+                    ae = inst(av, True, list(range(-1, 9)), {}, [20000])
+                    if z3.is_false(z3.simplify(model.eval(ae, model_completion=True))):
+                        return False
+            except z3.Z3Exception:
+                continue
         v = z3.simplify(model.eval(z3.Not(ob.goal), model_completion=True))
         if z3.is_true(v):
             return True
